@@ -97,6 +97,37 @@ def job(j):
                          # the matrix exactly as the library object holds it (for the tie with Gen/UqMats.v)
                          'mat_hex': [[float(v).hex() for v in row] for row in M.tolist()] if M.ndim == 2 else None}
         base = os.path.dirname(lib.path)
+        # what the data files themselves give for every entry (plain YAML, not the library's loader): a reference value that is
+        # written - zero included - and a table that is written must be there after loading
+        from pgradd.GroupAdd.Group import Group
+
+        def raw_presence(path, seen, acc):
+            with open(path) as f:
+                d = yaml.load(f, Loader=yaml.SafeLoader) or {}
+            for sect in ('groups', 'other_descriptors'):
+                for name, ps in (d.get(sect) or {}).items():
+                    tc = (ps or {}).get('thermochem')
+                    if tc is None:
+                        continue
+                    key = str(Group.parse(lib.scheme, name)) if sect == 'groups' else str(name)
+                    e = acc.setdefault(key, [False, False, False])
+                    e[0] = e[0] or tc.get('H_ref') is not None or tc.get('ND_H_ref') is not None
+                    e[1] = e[1] or tc.get('S_ref') is not None or tc.get('ND_S_ref') is not None
+                    e[2] = e[2] or bool(tc.get('Cp_data') or tc.get('ND_Cp_data'))
+            for inc in d.get('include') or []:
+                p2 = os.path.join(os.path.dirname(path), inc)
+                if p2 not in seen:
+                    seen.add(p2)
+                    raw_presence(p2, seen, acc)
+            return acc
+        want = raw_presence(lib.path, {lib.path}, {})
+        got = {}
+        for k in lib:
+            if 'thermochem' in lib[k]:
+                c = lib[k]['thermochem']
+                got[str(k)] = [c.ND_H_ref is not None, c.ND_S_ref is not None, bool(c.ND_Cp_data)]
+        res['presence_diff'] = sorted([k, want.get(k), got.get(k)] for k in set(want) | set(got) if want.get(k) != got.get(k))[:20]
+        res['n_presence'] = len(want)
         with open(os.path.join(base, 'scheme.yaml')) as f:
             sd = yaml.load(f, Loader=yaml.SafeLoader)
         unread = []
